@@ -451,12 +451,6 @@ theorem il_convolve_refines (data kernel : List F) (nx ny a b : Nat) (s : State 
   rw [convOut_eq_convolve] at h
   exact h
 
-theorem convolve_getElem? (D K : Arr F) (nx ny nkx nky p q : Nat) (hp : p < nx) (hq : q < ny) :
-    (convolve D K nx ny nkx nky)[p * ny + q]? = some (convCell D K nx ny nkx nky (p : Int) (q : Int)) := by
-  unfold convolve
-  rw [List.getElem?_map, allCells_getElem? nx ny p q hp hq]
-  rfl
-
 /-- **il_conv_cell.** cell `(p, q)` of the generated program's output: where the window fits in the raster, the sum
     (from 0, row-major over the kernel) of `kernel[k, l] * data[p - a + k, q - b + l]`; NaN elsewhere -/
 theorem il_conv_cell (data kernel : List F) (nx ny a b : Nat) (s : State F) (fuel : Nat)
